@@ -253,12 +253,13 @@ class H5SliceData(Dataset):
             curr_data = data[key][slice_no]
         else:
             # This can be useful for getting stacks of slices.
-            num_slices = self.get_num_slices(filename)
+            # Number of slices in the file (`slice_no` indexes the file, also when slices are filtered).
+            num_slices = data[key].shape[0]
             curr_data = data[key][
                 max(0, slice_no - self.kspace_context) : min(slice_no + self.kspace_context + 1, num_slices),
             ]
             curr_shape = curr_data.shape
-            if curr_shape[0] < num_slices - 1:
+            if curr_shape[0] < 2 * self.kspace_context + 1:
                 if slice_no - self.kspace_context < 0:
                     new_shape = list(curr_shape).copy()
                     new_shape[0] = self.kspace_context - slice_no
